@@ -66,7 +66,11 @@ CLAIM = dict(
           "method is scanned and no send is left unclassified (gen_scanned_all, gen_no_unknown: a send the translator cannot "
           "classify becomes an explicit `unknown` request that fails every obligation); the only sends deferred to a callback are "
           "application's stop signal, the only lazy probe left out is scp_data_length's sver to (255, 255, 0) (gen_deferred, "
-          "gen_lazy).  This covers all seven BMPController commands (which cabinet / frame / board and mask each carries, board 0 "
+          "gen_lazy).  The two _send_scp primitives are read from the source too: MachineController's hands its own (x, y, p) to the "
+          "connection _get_connection(x, y) names for the same chip (gen_mc_send); the model's bmpConnection IS the chain of "
+          "lookups BMPController._send_scp performs - (cabinet, frame, board), then (cabinet, frame), else an error - for all "
+          "connection tables and coordinates, and the datagram is addressed (0, 0, board) (gen_bmpConnection, gen_bmp_dest).  "
+          "This covers all seven BMPController commands (which cabinet / frame / board and mask each carries, board 0 "
           "for set_power, first board for set_led).  The signature of every decorated method of both controllers is regenerated from "
           "source and proved well-formed for the decorator; every decorated method a decorated method calls directly in the "
           "source (AST, incl. bound methods handed to map) must be an inner call of its wire rule - count_cores_in_state's "
@@ -2266,5 +2270,6 @@ THEOREMS += ["gen_scanned_all", "gen_no_unknown", "gen_rules_obey_signature_rule
              "gen_wire_carries_resolved", "gen_chip_independent_of_passing_style", "gen_core_independent_of_passing_style",
              "gen_core_from_context_methods", "gen_rules_eq_hand", "gen_wire_within_hand_rules", "hand_wire_within_gen_rules",
              "gen_deferred", "gen_lazy",      # wire rules extracted from the source (Props/C18Bodies.lean)
+             "gen_mc_send", "gen_bmpConnection", "gen_bmp_dest",      # the _send_scp primitives, read from the source
              "wireB_carries_resolved", "chipB_independent_of_passing_style", "coreB_independent_of_passing_style"]
 THEOREMS += ['gen_localEth', 'gen_getConnection']   # translator tie: generated function bodies = model (Props/C18Gen.lean)
